@@ -20,7 +20,7 @@ pub struct Fixture {
     staging: PathBuf,
     /// x1 (in P1), x2 (in P2), l (loose), x3 (only in P3), missing
     ids: Vec<ObjectId>,
-    contents: Vec<Vec<u8>>,
+    contents: Vec<Option<Vec<u8>>>,
     packs: Vec<String>, // names "pack-<hash>" for P1..P5
     loose_rel: PathBuf,
 }
@@ -52,6 +52,9 @@ impl Fixture {
         let x3 = blob(b"x3 arrives later\n".to_vec());
         // padding objects so that the packs have clearly different sizes (slot order is by index size)
         let pad: Vec<String> = (0..40).map(|i| blob(format!("padding {i}\n").into_bytes())).collect();
+        // x6 lives in a pack with so many objects that its .idx is bigger than the multi-pack-index file
+        let x6 = blob(b"x6 in a big pack that arrives later\n".to_vec());
+        let pad6: Vec<String> = (0..150).map(|i| blob(format!("more padding {i}\n").into_bytes())).collect();
         let staging = root.join("staging");
         let template = root.join("template");
         std::fs::create_dir_all(template.join("pack")).unwrap();
@@ -67,6 +70,11 @@ impl Fixture {
             pack_objects(&repo, &staging, &[&x3]),
             pack_objects(&repo, &staging, &p4),
             pack_objects(&repo, &staging, &[&l]),
+            {
+                let mut p6: Vec<&str> = vec![&x6];
+                p6.extend(pad6.iter().map(String::as_str));
+                pack_objects(&repo, &staging, &p6)
+            },
         ];
         // template: P1, P2 installed + loose l
         for n in &names[..2] {
@@ -90,9 +98,22 @@ impl Fixture {
             vkit::git::git(&d, &["multi-pack-index", "write"]);
             std::fs::copy(d.join("objects/pack/multi-pack-index"), staging.join(tag)).unwrap();
         }
+        // the same multi-pack-index content written again later (new mtime), as `git multi-pack-index write` does on every run
+        std::fs::copy(staging.join("midx12"), staging.join("midx12-rewritten")).unwrap();
+        let later = std::time::SystemTime::now() + Duration::from_secs(3600);
+        std::fs::File::options().write(true).open(staging.join("midx12-rewritten")).and_then(|f| f.set_modified(later)).unwrap();
+        if std::fs::metadata(staging.join(format!("{}.idx", names[5]))).unwrap().len() <= std::fs::metadata(staging.join("midx12")).unwrap().len() {
+            vkit::machinery!("fixture: the big pack's index must be larger than the multi-pack-index");
+        }
+        let x6_id = ids[44];
+        let x6_content = contents[44].clone();
         ids.truncate(4);
         contents.truncate(4);
         ids.push(ObjectId::from_hex(b"00000000000000000000000000000000000000ff").unwrap());
+        ids.push(x6_id);
+        let mut contents: Vec<Option<Vec<u8>>> = contents.into_iter().map(Some).collect();
+        contents.push(None);
+        contents.push(Some(x6_content));
         Fixture { template, staging, ids, contents, packs: names, loose_rel }
     }
 }
@@ -151,6 +172,15 @@ pub fn history(name: &str) -> Vec<Step> {
         // scripted variants: the environment starts after the reader has P1's index and the reader continues after the script
         "repack-add-refresh-scripted" => [vec![Step::AwaitReader], history("repack-add-refresh"), vec![Step::SignalReader]].concat(),
         "trash-reuse-scripted" => [vec![Step::AwaitReader], history("trash-reuse"), vec![Step::SignalReader]].concat(),
+        // `git multi-pack-index write` rewrites the (already loaded) multi-pack-index, then a pack it does not cover arrives
+        // whose index is bigger than the multi-pack-index file (slot order is by size)
+        "midx-rewrite-add-scripted" => vec![
+            Step::AwaitReader,
+            Step::Midx("midx12-rewritten".into()),
+            Step::Install(5, "pack".into()),
+            Step::Install(5, "idx".into()),
+            Step::SignalReader,
+        ],
         "trash-reuse" => [vec![Step::StableOn], ins(3), vec![Step::Refresh], rm(0), rm(1), vec![Step::Refresh, Step::StableOff], ins(2), vec![Step::Refresh]].concat(),
         other => vkit::machinery!("unknown history {other}"),
     }
@@ -295,26 +325,29 @@ fn body(fx: &Arc<Fixture>, live: &Path, c: &Cfg) -> Result<String, String> {
                     }
                     continue;
                 }
+                // "must-find": the script guarantees that the object is on disk during the whole call
+                let must = op == "must-find";
+                let op = if must { "find" } else { op.as_str() };
                 if op == "find" {
                     match Find::try_find(&h, &id, &mut buf) {
                         Ok(Some(data)) => {
-                            if *i >= fx.contents.len() {
+                            let Some(content) = &fx.contents[*i] else {
                                 return Err(format!("wrong-content: the absent object {id} was 'found'"));
-                            }
+                            };
                             let actual = gix_object::compute_hash(gix_hash::Kind::Sha1, data.kind, data.data);
-                            if actual != id || data.data != fx.contents[*i].as_slice() {
+                            if actual != id || data.data != content.as_slice() {
                                 return Err(format!("wrong-content: lookup of {id} returned content hashing to {actual}"));
                             }
                             obs.push_str(&format!("r{r}:{i}=found "));
                         }
                         Ok(None) => {
-                            if always_present(*i) && !no_refresh {
+                            if (always_present(*i) || must) && !no_refresh {
                                 return Err(format!("not-found: object #{i} {id} is on disk during the whole lookup but try_find returned None"));
                             }
                             obs.push_str(&format!("r{r}:{i}=none "));
                         }
                         Err(e) => {
-                            if always_present(*i) && !no_refresh {
+                            if (always_present(*i) || must) && !no_refresh {
                                 return Err(format!("lookup-error: object #{i} {id} is on disk during the whole lookup but try_find failed: {e}"));
                             }
                             obs.push_str(&format!("r{r}:{i}=err "));
@@ -322,7 +355,7 @@ fn body(fx: &Arc<Fixture>, live: &Path, c: &Cfg) -> Result<String, String> {
                     }
                 } else {
                     let found = PackFind::contains(&h, &id);
-                    if found && *i >= fx.contents.len() {
+                    if found && fx.contents[*i].is_none() {
                         return Err(format!("wrong-content: contains() is true for the absent object {id}"));
                     }
                     if !found && always_present(*i) && !no_refresh {
@@ -438,6 +471,12 @@ pub fn run(run: &'static Run) {
             let sync = |op: &str| (op.to_string(), 0usize);
             add(h, false, vec![vec![has(0), sync("signal"), sync("await"), f(0)]], vec![false], vec![false], bound);
             add(h, false, vec![vec![has(1), sync("signal"), sync("await"), f(1), f(0)]], vec![false], vec![false], bound.min(1));
+        }
+        {
+            let sync = |op: &str| (op.to_string(), 0usize);
+            let must = |i: usize| ("must-find".to_string(), i);
+            add("midx-rewrite-add-scripted", true, vec![vec![f(0), sync("signal"), sync("await"), must(5), f(1)]], vec![false], vec![false], bound);
+            add("midx-rewrite-add-scripted", true, vec![vec![has(1), sync("signal"), sync("await"), must(5)]], vec![true], vec![false], bound.min(1));
         }
         for h in ["repack-add-refresh", "trash-reuse"] {
             add(h, false, vec![vec![has(0), f(0)]], vec![false], vec![false], bound);
